@@ -615,6 +615,7 @@ static void *c16_root(void *arg) {
 	ids[1] = sim_spawn(c16_actor, (void *)(intptr_t)1, "peer1");
 	sim_join_fiber(ids[0]); sim_join_fiber(ids[1]);
 	if (sim_violated()) return NULL;
+	sim_fair_finish();
 	/* let timeouts that are due fire and everything drain */
 	{
 		uint64_t mx = 0;
